@@ -478,12 +478,25 @@ func replayWitness(wpath string, w *Witness, prog *ssa.Program) string {
 		return "reproduced"
 	case strings.Contains(text, "fatal error") || strings.Contains(text, "SIGSEGV") || strings.Contains(text, "unexpected signal"):
 		return "reproduced" // process died: memory-unsafety made visible
+	case witnessHasCast(w) && strings.Contains(text, "SVFAIL "):
+		// the engine saw a mis-typed variant access (silent memory confusion
+		// natively); its native symptom is a later oracle failing
+		return "reproduced"
 	case strings.Contains(text, "SVASSUME"):
 		return "not-reproduced (assumption false natively)"
 	case strings.Contains(text, "SVDONE"):
 		return "not-reproduced"
 	}
 	return "error: " + truncate(text, 300)
+}
+
+func witnessHasCast(w *Witness) bool {
+	for _, e := range w.Events {
+		if strings.HasPrefix(e, "cast:") || strings.Contains(e, "outcome: cast") {
+			return true
+		}
+	}
+	return false
 }
 
 func cmdReplay(args []string) int {
